@@ -62,7 +62,7 @@ func ScaleProfiles(profiles []*profile.Profile) error {
 	}
 
 	for _, p := range profiles {
-		if p.PeriodType != nil && periodType != nil {
+		if p.PeriodType != nil && periodType != nil && p.PeriodType.Unit != periodType.Unit {
 			period, _ := Scale(p.Period, p.PeriodType.Unit, periodType.Unit)
 			p.Period, p.PeriodType.Unit = int64(period), periodType.Unit
 		}
